@@ -889,8 +889,8 @@ fn gen_box(r: &mut Rng, id: String, thorough: bool) -> Value {
     muts.push(json!({"nflip": r.below(192)}));
     let nl = *r.pick(&[0usize, 12, 23, 25, 32]);
     muts.push(json!({"nonce": hex::encode(r.bytes(nl))}));
-    muts.push(json!({"rcp": gen_key(r, "x25519")}));
-    muts.push(json!({"snd": gen_key(r, "x25519")}));
+    muts.push(json!({"rcp": gen_other_key(r, "x25519", &rcp)}));
+    muts.push(json!({"snd": gen_other_key(r, "x25519", &snd)}));
     let rl = r.below(41);
     muts.push(json!({"raw": hex::encode(r.bytes(rl))}));
     let mut case = json!({"id": id, "kind": "c15:box", "snd": snd, "rcp": rcp, "msg": hex::encode(&msg), "nonce": hex::encode(&nonce),
@@ -919,7 +919,7 @@ fn gen_seal(r: &mut Rng, id: String, thorough: bool) -> Value {
     muts.push(json!({"take": 47}));
     muts.push(json!({"take": 48}));
     muts.push(json!({"append": "00"}));
-    muts.push(json!({"rcp": gen_key(r, "x25519")}));
+    muts.push(json!({"rcp": gen_other_key(r, "x25519", &rcp)}));
     let rl = r.below(60);
     muts.push(json!({"raw": hex::encode(r.bytes(rl))}));
     let mut case = json!({"id": id, "kind": "c15:seal", "eph": eph, "rcp": rcp, "msg": hex::encode(&msg), "muts": muts, "allbits": msg_len <= 8});
